@@ -11,7 +11,7 @@ IO through plain callables):
    and the EXACT number of input bits consumed; truncated inputs end by end-of-input;
  * casts bit<->hex and value<->ascii: exhaustive, incl. a dirty destination;
  * buffer helpers (input_ptr_line / print_ptr_text / print_ptr_line / fill_bytes / copy_bytes):
-   all strings of length <= 3 over {'a','\\n','\\0',0xff}, all counts 0..3.
+   all strings of length <= 3 over {'a','\\n','\\0',0xff} plus lines of 14..48 chars, counts 0..3 and 15..17, 31..33, 48 (50-byte buffers).
 """
 import itertools
 import sys
@@ -373,7 +373,7 @@ def work_strings(task):
     from fjv.enginecheck import scratch
     from fjv.stlharness import Harness, BlockSpec
     _, tier, w = task
-    KB = 6
+    KB = 50
     V = [('p', w // 4, 4), ('q', w // 4, 4), ('len', w // 4, 4), ('cnt', w // 4, 4), ('val', 2, 4), ('bufa', KB + 2, 8), ('bufb', KB + 2, 8)]
     B = [('input_ptr_line', 'hex.input_ptr_line p, len'), ('print_ptr_text', 'hex.print_ptr_text p, cnt'),
          ('print_ptr_line', 'hex.print_ptr_line p, len'), ('fill_bytes', 'hex.fill_bytes p, cnt, val'), ('copy_bytes', 'hex.copy_bytes q, p, cnt')]
@@ -388,12 +388,14 @@ def work_strings(task):
     pb = h.labels['bufb'] + dw
     chars = [0x61, 0x0A, 0x00, 0xFF]
     strings = [bytes(s) for L in range(0, 4) for s in itertools.product(chars, repeat=L)]
+    strings += [b'a' * k + t for k in (14, 15, 16, 17, 31, 32, 33, 48) for t in (b'', b'\n', b'\x00b')]  # lengths around the hex-digit carries of the counters
+    counts = (0, 1, 2, 3, 15, 16, 17, 31, 32, 33, 48)
     pack = lambda cells: sum(c << (8 * i) for i, c in enumerate(cells))  # noqa
     guard = 0x5E
     for name, call in B:
         outs = set()
         for s in strings:
-            for cnt in (range(0, 4) if name in ('print_ptr_text', 'fill_bytes', 'copy_bytes') else (0,)):
+            for cnt in (counts if name in ('print_ptr_text', 'fill_bytes', 'copy_bytes') else (0,)):
                 cells_a = [guard] + [0x11 * (k + 1) & 0xFF for k in range(KB)] + [guard]
                 cells_b = [guard] + [0xC0 + k for k in range(KB)] + [guard]
                 vals = {'p': pa, 'q': pb, 'len': 0x77, 'cnt': cnt, 'val': 0xE9, 'bufa': 0, 'bufb': 0}
